@@ -7,6 +7,7 @@ CONSTANTS
   ChmodGate = TRUE
   CopyGate = FALSE
   Truncates = TRUE
+  PPOrder = "program_first"
   Privileged = FALSE
   OptsSel = "all"
   EnvOn = TRUE
